@@ -320,7 +320,7 @@ func (i *interpreter) branch(cond *sym.Term) bool {
 		i.exp.push(workItem{prefix: np, model: m})
 	case sym.Unknown:
 		i.stats.Inconclusive++
-		i.stats.InconclMsgs["branch feasibility unknown: "+i.solver.LastErr]++
+		i.stats.InconclMsgs["branch feasibility unknown: "+i.solver.LastErr+" in "+i.curFnName()+" "+i.choiceSummary()]++
 	}
 	d := Decision{Kind: DecBranch}
 	if taken {
@@ -474,6 +474,17 @@ func (i *interpreter) curFnName() string {
 		return i.curFn.String()
 	}
 	return "?"
+}
+
+// choiceSummary renders the structural (choose) inputs of the current path.
+func (i *interpreter) choiceSummary() string {
+	var sb strings.Builder
+	for _, in := range i.path.inputs {
+		if in.Kind == "choose" {
+			fmt.Fprintf(&sb, "%s=%d ", in.Name, i.path.model[in.Name])
+		}
+	}
+	return sb.String()
 }
 
 // ---- inputs
